@@ -59,6 +59,14 @@ CLAIMED = {
    technique="bounded-exhaustive enumeration of downstream consumption schedules (release k slots / nothing, then work()) around the real VectorSource, FileSource and SigMFSource on capacity-2 streams, for data lengths 0-5 x repeat {0,1,2,3,infinite}; explicit-state enumeration of all call sequences on the Repeat API to depth 8 against a reference counter",
    text="Every consumption schedule up to the horizon, from four ring offsets / fill levels, must yield exactly data x repeat, EOF exactly when everything has been emitted and never for an infinite repeat, marker tags once per repetition on its first sample, and no panic; every sequence of again()/done()/count() calls up to depth 8 from finite(0..3) and infinite() must agree with a reference counter and never over/underflow.",
    note="Trusted: harness output port, reference counter, temp files for FileSource/SigMF recording. A runner never calls work() after EOF; the search does not either.", ref="DESIGN.md 3-E3, 5-C16"),
+ "C17": dict(level="fault_enumeration", engine="faultx",
+   technique="crash-point enumeration with strace: the sink's syscall history is recorded, then the child is re-run once per write syscall and SIGKILLed at entry of exactly that syscall (plus 'after the last'); open-mode table enumerated over modes x initial file states x sink kinds",
+   text="Every kill point of a 6-chunk (stream) and 4-packet history, for three open modes and both sinks, must leave a file that is a prefix of the serialised stream holding at least the bytes acknowledged so far (stream sink: consumed from the stream - seen through a consume hook that writes a marker syscall; packet sink: work() returned). The documented open-mode table (create fails iff exists; overwrite leaves exactly the new data; append keeps and adds, creating if absent) is checked for every initial state.",
+   note="Trusted: strace's syscall injection (kill at syscall entry), the recorded history being reproducible (recorded twice and compared). Process kill, not power loss. Runs as root: permission-based unwritable files are not exercised.", ref="DESIGN.md 3-E5, 5-C17"),
+ "C18": dict(level="fault_enumeration", engine="maps+faultx",
+   technique="all create/drop sequences up to depth 5 (6) over 9 operations with /proc/self/maps and /proc/self/fd counted after every operation, an every-byte aliasing check through the public window API; fault-point enumeration with strace: an error injected at every openat/ftruncate/mmap of the recorded setup history",
+   text="26 000 create/drop sequences (sizes of 1-2 pages, u8/u64, bad sizes 100 and 4097, element size 3, drops in both orders and on another thread) must keep mappings at baseline + 2 per live stream and descriptors at baseline; bad setups must be refused; surviving streams are written via the upper half and read back via the lower half. Every setup syscall of 1-3 consecutive constructions fails once (EMFILE/ENOSPC/ENOMEM): the constructor must return Err, not panic, and leak nothing.",
+   note="Trusted: /proc accounting, strace error injection. MAP_FIXED misplacement cannot be injected.", ref="DESIGN.md 3-E5, 5-C18"),
  "C19": dict(level="model_checking", engine="envx",
    technique="C08-style enumeration on blocks defined in the harness with #[derive(Block)]: sync 1x1, 2x1, 1x2, 3x2, 2x3, sync_tag 1x1 and 3x3, default/into fields, a new()-only block with copy and non-copy outputs; per-call accounting oracle; generated eof() over all 4^n input states",
    text="For every drip-feed schedule up to the horizon each call must process exactly min(shortest input, smallest output space) steps on every stream and answer Again, or move nothing and wait (need 1) on a stream that really is an empty input or a full output; outputs equal the per-sample function, tags of the first input follow, new() returns read ends in declaration order, and the generated eof() is true iff all inputs are gone and drained (all 4+16+64 combinations).",
@@ -76,6 +84,10 @@ ENGINES = [
   "kind_free_text": "exhaustive small-domain enumeration of HDLC bit streams, chunkings and corruptions against a reference framer"},
 {"name": "crashx", "path": "/verif/harness/seq/src/crashx.rs", "serves_properties": ["C15"],
   "kind_free_text": "exhaustive small-domain input enumeration with a no-panic / no-spin oracle"},
+{"name": "faultx", "path": "/verif/harness/faultx.py", "serves_properties": ["C17", "C18"],
+  "kind_free_text": "crash-point / fault-point enumeration of child processes under strace syscall injection"},
+ {"name": "maps", "path": "/verif/harness/seq/src/maps.rs", "serves_properties": ["C18"],
+  "kind_free_text": "exhaustive create/drop sequences with mapping and descriptor accounting"},
  {"name": "mt", "path": "/verif/harness/mt/src", "serves_properties": ["C03", "C04", "C05", "C07"],
   "kind_free_text": "stateless model checking: deviation-bounded DFS over schedules of the real code on the shuttle runtime, timeouts as scheduler choices"},
 ]
